@@ -284,6 +284,10 @@ func (c *c10) runReader(r *core.R, rng *rand.Rand, total, savedMask int, allDama
 			}
 		}
 	}
+	// intact data, a hole in the parity numbering, full parity check
+	if nv >= 2 {
+		p1Judge(r, e, vols, p1Damage{bad: map[int]string{}, lostVols: map[int]bool{1 + rng.Intn(nv-1): true}}, rng, savedIdx, true)
+	}
 	// every saved file lost at once (the parity volumes alone carry the set)
 	{
 		d := p1Damage{bad: map[int]string{}, lostVols: map[int]bool{}}
